@@ -4,14 +4,15 @@
      draw <nonce> <new_nonce> <b> <client padding as recovered by the server | ->
      pub <n> <e>
      srv ...                      (C06 only: the conformant server's parameters, for Handshake/Server.v)
-     reply <body> <foreign-decodes 0|1>     (in order: what the server sent)
+     reply <body>  |  arrival err404  |  arrival closed      (in order: what the server sent: a plain body, the 4-byte
+                                  transport error frame, the connection closed)
      enc <session id> <msg id> <seq_no> <body>      (the first encrypted request as opened by the server)
      modexp <b> <e> <m> <r> | prime <n> <0|1> | split <pq> <p> <q>     ORACLE TABLE recorded from math/big and the
                                   client's own SplitPQ for exactly the calls of this case
      end <id>
 
    The extracted client model (Handshake/Client.v) is run with the Gallina SHA-1 / AES-256 and with modexp,
-   is_prime, split, foreign_ok answering from the table; an entry that is missing is a harness error (exception),
+   is_prime, split answering from the table; an entry that is missing is a harness error (exception),
    never a default.  Output: one line per case,  id \t key=value ... *)
 
 exception Missing of string
@@ -85,7 +86,7 @@ type case = {
   mutable nonce : string; mutable new_nonce : string; mutable b : string; mutable pad : string;
   mutable pn : string; mutable pe : string;
   mutable srv : string list;
-  mutable replies : (string * bool) list;
+  mutable replies : string list;
   mutable enc : string list;
   modexp_t : (string, string) Hashtbl.t;
   prime_t : (string, bool) Hashtbl.t;
@@ -121,9 +122,6 @@ let run_case (c : case) =
     | Some (p, q) -> Some (n_of_hex p, n_of_hex q)
     | None -> raise (Missing ("split " ^ hex_of_n x)) in
   let replies = List.rev c.replies in
-  let foreign_ok bs =
-    let h = hex_of_bytes bs in
-    match List.assoc_opt h replies with Some f -> f | None -> raise (Missing "foreign") in
   let pk = { k_n = n_of_hex c.pn; k_e = n_of_hex c.pe } in
   let pad = bytes_of_hex c.pad in
   let dr = { d_nonce = bytes_of_hex c.nonce; d_new_nonce = bytes_of_hex c.new_nonce; d_b = bytes_of_hex c.b;
@@ -153,13 +151,16 @@ let run_case (c : case) =
   (try
   let env = match sparams with
     | Some sp -> srv_env sha1 aes_enc aes_dec modexp sp
-    | None -> script_env (List.map (fun (h, _) -> bytes_of_hex h) replies) in
+    | None -> script_env (List.map (fun h -> match h with
+                                      | "!err404" -> TransportError
+                                      | "!closed" -> Closed
+                                      | _ -> Reply (bytes_of_hex h)) replies) in
     let (eff, fin) =
       match c.enc with
       | [sid; msgid; seq; body] ->
-        connect_and_request sha1 aes_enc aes_dec modexp is_prime split foreign_ok pk dr env
+        connect_and_request sha1 aes_enc aes_dec modexp is_prime split pk dr env
           (n_of_le_hex sid) (n_of_le_hex msgid) (n_of_le_hex seq) false (bytes_of_hex body)
-      | _ -> outcome_of (handshake sha1 aes_enc aes_dec modexp is_prime split foreign_ok pk dr env) in
+      | _ -> outcome_of (handshake sha1 aes_enc aes_dec modexp is_prime split pk dr env) in
     let nplain = ref 0 and saved = ref "-" and encp = ref "-" in
     List.iter (fun ef -> match ef with
       | SendPlain b -> incr nplain; put (Printf.sprintf "f%d" !nplain) (hex_of_bytes b)
@@ -170,7 +171,7 @@ let run_case (c : case) =
        let frames = List.filter_map (fun ef -> match ef with SendPlain b -> Some b | _ -> None) eff in
        let rec prefixes acc l = match l with [] -> [] | x :: r -> (acc @ [x]) :: prefixes (acc @ [x]) r in
        List.iteri (fun i h -> put (Printf.sprintf "r%d" (i + 1))
-                     (match srv_env sha1 aes_enc aes_dec modexp sp h with Some r -> hex_of_bytes r | None -> "refused"))
+                     (match srv_env sha1 aes_enc aes_dec modexp sp h with Some (Reply r) -> hex_of_bytes r | _ -> "refused"))
          (prefixes [] frames);
        (match frames with
         | [f1; f2; f3] ->
@@ -197,7 +198,8 @@ let () =
     | "draw" :: a :: b :: c :: d :: _ -> !cur.nonce <- a; !cur.new_nonce <- b; !cur.b <- c; !cur.pad <- d
     | "pub" :: n :: e :: _ -> !cur.pn <- n; !cur.pe <- e
     | "srv" :: rest -> !cur.srv <- rest
-    | "reply" :: h :: f :: _ -> !cur.replies <- (h, f = "1") :: !cur.replies
+    | "reply" :: h :: _ -> !cur.replies <- h :: !cur.replies
+    | "arrival" :: k :: _ -> !cur.replies <- ("!" ^ k) :: !cur.replies
     | "enc" :: rest -> !cur.enc <- rest
     | "modexp" :: b :: e :: m :: r :: _ -> Hashtbl.replace !cur.modexp_t (norm_hex b ^ "|" ^ norm_hex e ^ "|" ^ norm_hex m) r
     | "prime" :: n :: v :: _ -> Hashtbl.replace !cur.prime_t (norm_hex n) (v = "1")
